@@ -294,6 +294,12 @@ func (c *Variant) SetAsObject(value any) {
 		c.value = v2
 	case *Variant:
 		v, _ := c.value.(*Variant)
+		if v == nil {
+			// A nil variant is the Null value
+			c.typ = Null
+			c.value = nil
+			break
+		}
 		c.typ = v.typ
 		c.value = v.value
 		// Keep an own copy of the list, as for a plain array
